@@ -59,6 +59,12 @@ class HierarchyFilter(Filter):
         self._parent_rtdc_ds = None
         self._parent_hash = None
         self.update_parent(rtdc_ds.hparent)
+        # Indices of the events of `rtdc_ds` in the root parent at the
+        # time this filter is created. `self.manual` always refers to
+        # these events: When the events of `rtdc_ds` change, a new
+        # HierarchyFilter is created (`RTDC_Hierarchy._check_parent_filter`).
+        self._root_ids = map_indices_child2root(
+            child=rtdc_ds, child_indices=np.arange(self.size))
 
     @property
     def parent_changed(self):
@@ -110,50 +116,22 @@ class HierarchyFilter(Filter):
         which have been manually excluded before and are now
         hidden because a hierarchy parent filtered it out.
 
-        If `self.parent_changed` is `True`, i.e. the parent applied
-        a filter and the child did not yet hear about this, then
-        nothing is computed and `self._man_root_ids` as-is.  This
-        is important, because the size of the current filter would
-        not match the size of the filtered events of the parent and
-        thus index-mapping would not work.
+        The root indices are taken from `self._root_ids`, which
+        were determined when this filter was created. Thus, the
+        result is also correct if `self.parent_changed` is `True`,
+        i.e. if a hierarchy parent already applied new filters and
+        the child did not yet hear about this (the current index
+        mapping would not match the size of `self.manual` anymore).
         """
-        if self.parent_changed:
-            # ignore
-            pass
-        elif np.all(self.manual):
-            # Do not do anything and remember the events we manually
-            # excluded in case the parent reinserts them.
-            pass
-        else:
-            # indices from boolean array
-            pbool = map_indices_child2root(
-                child=rtdc_ds,
-                child_indices=np.where(~self.manual)[0]).tolist()
-            # retrieve all indices that are currently not visible
-            # previous indices
-            pold = self._man_root_ids
-            # all indices previously selected either via
-            # - self.manual or
-            # - self.apply_manual_indices
-            pall = sorted(list(set(pbool + pold)))
-            # visible indices (only available child indices are returned)
-            pvis_c = map_indices_root2child(child=rtdc_ds,
-                                            root_indices=pall).tolist()
-            # map visible child indices back to root indices
-            pvis_p = map_indices_child2root(child=rtdc_ds,
-                                            child_indices=pvis_c).tolist()
-            # hidden indices
-            phid = list(set(pall) - set(pvis_p))
-            # Why not set `all_idx` to `pall`:
-            # - pbool is considered to be correct
-            # - pold contains hidden indices, but also might contain
-            #   excess indices from before, i.e. if self.apply_manual_indices
-            #   is called, self.manual is also updated. If however,
-            #   self.manual is updated, self._man_root_ids are not updated.
-            #   Thus, we trust pbool (self.manual) and only use pold
-            #   (self._man_root_ids) to determine hidden indices.
-            all_idx = list(set(pbool + phid))
-            self._man_root_ids = sorted(all_idx)
+        # root indices of the events excluded in `self.manual`
+        # (`self.manual` is considered to be correct)
+        pbool = self._root_ids[~self.manual].tolist()
+        # Previously excluded events that are not part of `rtdc_ds`
+        # (hidden). `self._man_root_ids` might also contain visible
+        # events that have been re-included via `self.manual` since;
+        # those are dropped.
+        phid = set(self._man_root_ids) - set(self._root_ids.tolist())
+        self._man_root_ids = sorted(set(pbool) | phid)
         return self._man_root_ids
 
     def update_parent(self, parent_rtdc_ds):
